@@ -11,9 +11,11 @@ pub fn gen_system(rng: &mut Rng, class: &str) -> System {
     match class {
         "planted" => {
             let pert = *rng.pick(&[0.0, 1e-3, 1e-2, 1e-2, 0.3]);
-            gen_planted(rng, 8, pert, &SHAPES)
+            // now and then a sketch several times larger than the usual one (size-dependent paths)
+            let max_cons = if rng.chance(1, 25) { 60 } else { 8 };
+            gen_planted(rng, max_cons, pert, &SHAPES)
         }
-        "linear" => gen_linear(rng, 6, 10),
+        "linear" => if rng.chance(1, 25) { gen_linear(rng, 40, 70) } else { gen_linear(rng, 6, 10) },
         "prio" => {
             let base = if rng.chance(1, 2) {
                 gen_planted(rng, 6, 1e-2, &SHAPES)
